@@ -5,6 +5,7 @@ with the same A-view) and local respect (a request of B ≠ A does not change th
 id-addressed RPCs.
 -/
 import KyroModel.Lemmas.TenantInv
+import KyroModel.Lemmas.TenantBulk
 
 namespace KyroModel.Srv
 open KyroModel
@@ -29,6 +30,7 @@ inductive Req
   | bulkQuery (lids : List Nat) (ns : String)
   | bdIds (lids : List Nat) (ns : String)
   | bulkInsert (items : List Item)
+  | bulkLoad (items : List Item)
 
 inductive Resp
   | unit (r : Except Err Unit)
@@ -37,6 +39,7 @@ inductive Resp
   | read (r : Except Err (Option (List Nat × Meta)))
   | reads (r : Except Err (List (Nat × Option (List Nat × Meta))))
   | counts (inserted failed : Nat)
+  | loaded (r : Except Err (Nat × Nat))
 
 def handle (s : S) (t : Tn) : Req → S × Resp
   | .insert lid v m ns => ((insert s t lid v m ns).1, .unit (insert s t lid v m ns).2)
@@ -46,6 +49,7 @@ def handle (s : S) (t : Tn) : Req → S × Resp
   | .bulkQuery lids ns => (s, .reads (bulkQuery s t lids ns))
   | .bdIds lids ns => ((batchDeleteIds s t lids ns).1, .nat (batchDeleteIds s t lids ns).2)
   | .bulkInsert items => ((bulkInsert s t items).1, .counts (bulkInsert s t items).2.1 (bulkInsert s t items).2.2)
+  | .bulkLoad items => ((bulkLoad s t items).1, .loaded (bulkLoad s t items).2)
 
 /-! ### state builders keep the view -/
 
@@ -181,6 +185,99 @@ theorem bulkInsert_view {a : Tn} (items : List Item) :
     have p2 := congrArg Prod.snd r1
     split <;> exact ⟨by simp only [p1, p2], r2⟩
 
+theorem dim_noteInserts (s : S) (t : Tn) (n : Nat) : (noteInserts s t n).dim = s.dim := by
+  unfold noteInserts; by_cases hn : n = 0 <;> simp [hn, setUsage]
+theorem dim_noteDeletes (s : S) (t : Tn) (n : Nat) : (noteDeletes s t n).dim = s.dim := by
+  unfold noteDeletes; by_cases hn : n = 0 <;> simp [hn, setUsage]
+theorem dim_decCount (s : S) (t : Tn) (n : Nat) : (decCount s t n).dim = s.dim := by
+  unfold decCount; by_cases hn : n = 0 <;> simp [hn, setCount]
+
+theorem loadAll_cons (s : S) (g : Nat) (v : List Nat) (m : Meta) (rest : List (Nat × List Nat × Meta)) :
+    loadAll s ((g, v, m) :: rest) =
+      if v.length = s.dim then
+        ((loadAll { s with docs := aset g ⟨v, m⟩ s.docs } rest).1, (loadAll { s with docs := aset g ⟨v, m⟩ s.docs } rest).2.1 + 1,
+          (loadAll { s with docs := aset g ⟨v, m⟩ s.docs } rest).2.2)
+      else ((loadAll s rest).1, (loadAll s rest).2.1, (loadAll s rest).2.2 + 1) := by
+  rw [loadAll]
+  by_cases hv : v.length = s.dim <;> simp [engineInsert, hv]
+
+theorem loadAll_view {a : Tn} (B : List (Nat × List Nat × Meta)) (hB : ∀ b ∈ B, b.1 / limit32 = a.idx) :
+    ∀ {s1 s2 : S}, ViewEq a s1 s2 →
+      (loadAll s1 B).2 = (loadAll s2 B).2 ∧ ViewEq a (loadAll s1 B).1 (loadAll s2 B).1 := by
+  induction B with
+  | nil => intro s1 s2 h; exact ⟨rfl, h⟩
+  | cons b rest ih =>
+    obtain ⟨g, v, m⟩ := b
+    intro s1 s2 h
+    have hrest : ∀ b ∈ rest, b.1 / limit32 = a.idx := fun b hb => hB b (List.mem_cons_of_mem _ hb)
+    rw [loadAll_cons, loadAll_cons]
+    by_cases hv : v.length = s1.dim
+    · have hv2 : v.length = s2.dim := h.dim ▸ hv
+      have h' : ViewEq a { s1 with docs := aset g ⟨v, m⟩ s1.docs } { s2 with docs := aset g ⟨v, m⟩ s2.docs } :=
+        ⟨h.dim, view_docs_aset h g _, h.cnt⟩
+      obtain ⟨r1, r2⟩ := ih hrest h'
+      rw [if_pos hv, if_pos hv2]
+      exact ⟨by rw [r1], r2⟩
+    · have hv2 : ¬ v.length = s2.dim := h.dim ▸ hv
+      obtain ⟨r1, r2⟩ := ih hrest h
+      rw [if_neg hv, if_neg hv2]
+      exact ⟨by rw [r1], r2⟩
+
+theorem view_setCount {a : Tn} {s1 s2 : S} (h : ViewEq a s1 s2) (n : Nat) :
+    ViewEq a (setCount s1 a n) (setCount s2 a n) :=
+  ⟨h.dim, h.docs, by rw [count_setCount_self, count_setCount_self]⟩
+
+theorem bulkLoad_view {a : Tn} {s1 s2 : S} (h : ViewEq a s1 s2) (items : List Item) :
+    (bulkLoad s1 a items).2 = (bulkLoad s2 a items).2 ∧ ViewEq a (bulkLoad s1 a items).1 (bulkLoad s2 a items).1 := by
+  unfold bulkLoad
+  simp only
+  generalize hBdef : ((items.filter fun it => !(decide (it.lid < 1) || it.vec.isEmpty) && (gid a it.lid).isSome).map
+      fun it => ((gid a it.lid).getD 0, it.vec, stamp a it.md it.ns)) = B
+  have hB : ∀ b ∈ B, b.1 / limit32 = a.idx := by
+    intro b hb
+    rw [← hBdef] at hb
+    obtain ⟨it, hit, rfl⟩ := List.mem_map.mp hb
+    simp only [List.mem_filter, Bool.and_eq_true] at hit
+    obtain ⟨g, hg⟩ := Option.isSome_iff_exists.mp hit.2.2
+    simp only [hg, Option.getD_some]
+    exact gid_div a it.lid g hg
+  split
+  · exact ⟨rfl, h⟩
+  -- the new ids are computed from lookups in the caller's own range
+  have hnew : ((B.map (·.1)).filter fun g => !(alookup g s1.docs).isSome) =
+      ((B.map (·.1)).filter fun g => !(alookup g s2.docs).isSome) := by
+    apply List.filter_congr
+    intro g hg
+    obtain ⟨b, hb, rfl⟩ := List.mem_map.mp hg
+    rw [h.docs b.1 (hB b hb)]
+  rw [hnew, h.cnt]
+  generalize hN : dedupNat ((B.map (·.1)).filter fun g => !(alookup g s2.docs).isSome) = newIds
+  have hNin : ∀ g ∈ newIds, g / limit32 = a.idx := by
+    intro g hg
+    rw [← hN, mem_dedupNat] at hg
+    obtain ⟨b, hb, rfl⟩ := List.mem_map.mp (List.mem_filter.mp hg).1
+    exact hB b hb
+  split
+  · exact ⟨rfl, h⟩
+  · have hs1 : ViewEq a (if newIds.isEmpty = true then s1 else setCount s1 a (count s2 a + newIds.length))
+        (if newIds.isEmpty = true then s2 else setCount s2 a (count s2 a + newIds.length)) := by
+      split
+      · exact h
+      · exact view_setCount h _
+    obtain ⟨r1, r2⟩ := loadAll_view B hB hs1
+    have hnow : (newIds.filter fun g => (alookup g (loadAll (if newIds.isEmpty = true then s1 else setCount s1 a (count s2 a + newIds.length)) B).1.docs).isSome) =
+        (newIds.filter fun g => (alookup g (loadAll (if newIds.isEmpty = true then s2 else setCount s2 a (count s2 a + newIds.length)) B).1.docs).isSome) := by
+      apply List.filter_congr
+      intro g hg
+      rw [r2.docs g (hNin g hg)]
+    rw [hnow, r1]
+    refine ⟨rfl, ⟨?_, ?_, ?_⟩⟩
+    · rw [dim_noteInserts, dim_decCount, dim_noteInserts, dim_decCount]; exact r2.dim
+    · intro g' hg'
+      rw [docs_noteInserts, docs_decCount, docs_noteInserts, docs_decCount]
+      exact r2.docs g' hg'
+    · rw [count_noteInserts, count_decCount_self, count_noteInserts, count_decCount_self, r2.cnt]
+
 /-- **Output consistency**: a request of `a` answers the same on two states with the same A-view
     and leaves them with the same A-view. -/
 theorem handle_view {a : Tn} {s1 s2 : S} (h : ViewEq a s1 s2) (r : Req) :
@@ -275,15 +372,12 @@ theorem handle_view {a : Tn} {s1 s2 : S} (h : ViewEq a s1 s2) (r : Req) :
     simp only [handle]
     obtain ⟨e1, e2⟩ := bulkInsert_view items h
     exact ⟨by rw [e1], e2⟩
+  | bulkLoad items =>
+    simp only [handle]
+    obtain ⟨e1, e2⟩ := bulkLoad_view h items
+    exact ⟨by rw [e1], e2⟩
 
 /-! ### local respect -/
-
-theorem dim_noteInserts (s : S) (t : Tn) (n : Nat) : (noteInserts s t n).dim = s.dim := by
-  unfold noteInserts; by_cases hn : n = 0 <;> simp [hn, setUsage]
-theorem dim_noteDeletes (s : S) (t : Tn) (n : Nat) : (noteDeletes s t n).dim = s.dim := by
-  unfold noteDeletes; by_cases hn : n = 0 <;> simp [hn, setUsage]
-theorem dim_decCount (s : S) (t : Tn) (n : Nat) : (decCount s t n).dim = s.dim := by
-  unfold decCount; by_cases hn : n = 0 <;> simp [hn, setCount]
 
 /-- whatever `insertCore` of tenant `b` does, it touches only the document under `g` and only
     `b`'s counter -/
@@ -350,6 +444,56 @@ theorem bulkInsert_respects {a b : Tn} (hab : a.idx ≠ b.idx) (items : List Ite
     simp only
     split <;> exact h1.trans h2
 
+theorem loadAll_respects {a : Tn} (B : List (Nat × List Nat × Meta)) (hB : ∀ b ∈ B, b.1 / limit32 ≠ a.idx) :
+    ∀ (s : S), ViewEq a s (loadAll s B).1 := by
+  induction B with
+  | nil => intro s; exact ViewEq.refl a s
+  | cons b rest ih =>
+    obtain ⟨g, v, m⟩ := b
+    intro s
+    have hrest : ∀ b ∈ rest, b.1 / limit32 ≠ a.idx := fun b hb => hB b (List.mem_cons_of_mem _ hb)
+    have hg : g / limit32 ≠ a.idx := hB (g, v, m) (List.mem_cons_self ..)
+    rw [loadAll_cons]
+    by_cases hv : v.length = s.dim
+    · rw [if_pos hv]
+      have h1 : ViewEq a s { s with docs := aset g ⟨v, m⟩ s.docs } :=
+        ⟨rfl, fun g' hg' => (alookup_aset_ne g g' _ _ (fun e => hg (e ▸ hg'))).symm, rfl⟩
+      exact h1.trans (ih hrest _)
+    · rw [if_neg hv]
+      exact ih hrest s
+
+theorem bulkLoad_respects {a b : Tn} (hab : a.idx ≠ b.idx) (s : S) (items : List Item) :
+    ViewEq a s (bulkLoad s b items).1 := by
+  unfold bulkLoad
+  simp only
+  generalize hBdef : ((items.filter fun it => !(decide (it.lid < 1) || it.vec.isEmpty) && (gid b it.lid).isSome).map
+      fun it => ((gid b it.lid).getD 0, it.vec, stamp b it.md it.ns)) = B
+  have hB : ∀ x ∈ B, x.1 / limit32 ≠ a.idx := by
+    intro x hx e
+    rw [← hBdef] at hx
+    obtain ⟨it, hit, rfl⟩ := List.mem_map.mp hx
+    simp only [List.mem_filter, Bool.and_eq_true] at hit
+    obtain ⟨g, hg⟩ := Option.isSome_iff_exists.mp hit.2.2
+    simp only [hg, Option.getD_some] at e
+    exact hab (e.symm.trans (gid_div b it.lid g hg))
+  split
+  · exact ViewEq.refl a s
+  generalize dedupNat ((B.map (·.1)).filter fun g => !(alookup g s.docs).isSome) = newIds
+  split
+  · exact ViewEq.refl a s
+  · have h0 : ViewEq a s (if newIds.isEmpty = true then s else setCount s b (count s b + newIds.length)) := by
+      split
+      · exact ViewEq.refl a s
+      · exact ⟨rfl, fun _ _ => rfl, (count_setCount_ne s b a _ hab).symm⟩
+    have h1 := h0.trans (loadAll_respects B hB _)
+    refine ⟨?_, ?_, ?_⟩
+    · rw [dim_noteInserts, dim_decCount]; exact h1.dim
+    · intro g' hg'
+      rw [docs_noteInserts, docs_decCount]
+      exact h1.docs g' hg'
+    · rw [count_noteInserts, count_decCount_ne _ _ _ _ hab]
+      exact h1.cnt
+
 /-- **Local respect**: a request of tenant `b` does not change what tenant `a` (another index) can
     observe. -/
 theorem handle_respects {a b : Tn} (hab : a.idx ≠ b.idx) (s : S) (r : Req) : ViewEq a s (handle s b r).1 := by
@@ -411,5 +555,6 @@ theorem handle_respects {a b : Tn} (hab : a.idx ≠ b.idx) (s : S) (r : Req) : V
       · rw [count_noteDeletes, count_decCount_ne _ _ _ _ hab]
         exact h1.cnt
   | bulkInsert items => exact bulkInsert_respects hab items s
+  | bulkLoad items => exact bulkLoad_respects hab s items
 
 end KyroModel.Srv
